@@ -59,11 +59,12 @@ inductive Ref where
   deriving Repr, DecidableEq, Inhabited
 
 structure Cfg where
-  lockSetsFlag : Bool
+  lockSetsFlag : Bool      -- `AnyArray.lock` protects the wrapped ndarray (repaired `isinstance(self._val, np.ndarray)`)
+  fullBaseRO : Bool        -- `AnyArray.full` makes the 0-d array behind the broadcast read-only (it stays reachable as `.base`)
   deriving Repr, DecidableEq
 
-def fixed : Cfg := ⟨true⟩
-def asFound : Cfg := ⟨false⟩
+def fixed : Cfg := ⟨true, true⟩
+def asFound : Cfg := ⟨false, false⟩
 
 /-- the history alphabet; handles are the ids of the objects (every object ever returned can be held) -/
 inductive Op where
@@ -95,6 +96,7 @@ inductive Op where
   | mkDiag (f : Nat)                         -- makeOp(f)
   | mkAdder (f : Nat)                        -- Adder(f)
   | applyOp (o x : Nat)                      -- op(x)
+  | arrBase (a : Nat)                        -- a.base   (None for an array that owns its data)
   deriving Repr, DecidableEq, Inhabited
 
 /-- effect record of one Python-level operation -/
@@ -104,6 +106,7 @@ structure Eff where
   lockWrap : Option Nat := none                -- `_writeable = False`
   write : Option (Nat × List Int) := none      -- new content of the window of this ndarray object
   newBuf : Option (List Int) := none
+  newArr0 : Option Arr := none                 -- an additional ndarray object allocated before `newArr` (the base of a broadcast)
   newArr : Option Arr := none
   newWrap : Option Wrap := none
   newField : Option Nat := none
@@ -136,7 +139,7 @@ def bufsAfterWrite (s : State) (e : Eff) : List (List Int) :=
 /-- execute an effect record: lock, unlock, write, then allocate -/
 def apply (s : State) (e : Eff) : State :=
   { bufs := bufsAfterWrite s e ++ e.newBuf.toList
-    arrs := arrsAfterFlags s e ++ e.newArr.toList
+    arrs := arrsAfterFlags s e ++ e.newArr0.toList ++ e.newArr.toList
     wraps := (match e.lockWrap with | some i => setWrapFlag s.wraps i false | none => s.wraps) ++ e.newWrap.toList
     fields := s.fields ++ e.newField.toList
     ops := s.ops ++ e.newOp.toList }
@@ -315,10 +318,12 @@ def eff (cfg : Cfg) (s : State) : Op → Eff
       | some (wo, ao) => fieldInit cfg s w wo ao n false
       | none => bad
   | .fieldFull n v =>
-      -- np.broadcast_to(np.array(val), shape): read-only view of a 0-d array nobody holds
+      -- np.broadcast_to(np.array(val), shape): a read-only view of a 0-d array which stays reachable as `.base`
+      -- (one memory cell; the model keeps `n` copies and never writes through the 0-d object unless it is writable)
       { newBuf := some (List.replicate n v),
-        newArr := some { buf := s.bufs.length, off := 0, len := n, writeable := false, base := Base.hidden },
-        newWrap := some { arr := s.arrs.length, writeable := false },
+        newArr0 := some { buf := s.bufs.length, off := 0, len := 1, writeable := !cfg.fullBaseRO, base := Base.owner },
+        newArr := some { buf := s.bufs.length, off := 0, len := n, writeable := false, base := Base.view s.arrs.length },
+        newWrap := some { arr := s.arrs.length + 1, writeable := false },
         newField := some s.wraps.length, ret := Ref.field s.fields.length }
   | .fieldCast f =>
       match getField s f with
@@ -386,6 +391,12 @@ def eff (cfg : Cfg) (s : State) : Op → Eff
           else freshField cfg s (addVals (window s ax) (window s af))
         | none => bad
       | _, _ => bad
+  | .arrBase a =>
+      match s.arrs[a]? with
+      | some ao => match ao.base with
+        | Base.view o => { ret := Ref.arr o }
+        | _ => {}                                        -- owns its data: `.base is None`
+      | none => bad
 
 def step (cfg : Cfg) (s : State) (op : Op) : State := apply s (eff cfg s op)
 
